@@ -439,6 +439,19 @@ def _tilt_design_ok(i):
     return s[-1] > 1e-3 * s[0] > 0
 
 
+def _tilt_design_exactly_deficient(i):
+    """the tilt design [x, y] on the valid samples has a numerically EXACT rank defect (a zero column on a single row / column, all
+    valid samples on one line through the origin, a single sample): theorem `tilt_removal_idempotent_any_rank` says the minimum-norm
+    re-fit (what lstsq returns) is still exactly 0, because ALL fitted columns are removed"""
+    j = copy.deepcopy(i)
+    fin = np.isfinite(j.data)
+    if fin.sum() < 1:
+        return False
+    A = np.stack([j.x[fin], j.y[fin]]).T
+    s = np.linalg.svd(A, compute_uv=False)
+    return s[0] == 0 or s[-1] <= 1e-13 * s[0] or fin.sum() == 1
+
+
 def op_failures(before, op, i):
     """predicates tied to the operation just executed.  `before` = (data copy, dx) before the operation"""
     ig = _impl()
@@ -467,6 +480,11 @@ def op_failures(before, op, i):
         ext = float(max(np.abs(j.x).max(), np.abs(j.y).max(), 1e-12))
         if np.abs(c).max() * ext > TOL * scale * 100:
             out.append(f're-fitting tilt after remove_tiptilt finds coefficients {c.tolist()}')
+    if op == 'remove_tiptilt' and nv >= 1 and np.all(np.abs(_valid(d0)) < 1e6) and _tilt_design_exactly_deficient(i):
+        c, j = _tilt_refit(i)
+        ext = float(max(np.abs(j.x).max(), np.abs(j.y).max(), 1e-12))
+        if not np.all(np.isfinite(c)) or np.abs(c).max() * ext > TOL * scale * 100:
+            out.append(f're-fitting tilt after remove_tiptilt on a rank-deficient design (minimum-norm solution) finds coefficients {c.tolist()}')
     if op == 'remove_power' and nv >= 3 and _power_design_ok(d1):
         fin = np.isfinite(d1)
         m, n = d1.shape
